@@ -594,15 +594,11 @@ struct Checker {
         case OP_FREENULL:
             if (!rec.ev.empty()) { fail(A_FREENULL, rec.idx, "polyseed_free(NULL) called a dependency: " + rec.ev[0].str()); return; }
             break;
-        case OP_LANGQ: {
-            int li = libmap[op.a % libmap.size()];
+        case OP_LANGQ:
+            // (names of languages are not part of any claimed property: a corrected native name is no alarm; a renamed
+            // English name simply makes the language unknown to the snapshot, i.e. unpredicted)
             if (rec.ret != model::langs.size()) st->add("registry_size_differs");
-            if (li >= 0) {
-                std::string exp = model::langs[li].name_en + "|" + model::langs[li].name;
-                if (std::string(rec.out.begin(), rec.out.end()) != exp) { fail(A_LANGQ, rec.idx, "language names " + std::string(rec.out.begin(), rec.out.end()) + ", expected " + exp); return; }
-            }
             break;
-        }
         }
         if (stop()) return;
         // isolation: no other live seed of any task changed
@@ -803,7 +799,18 @@ static RunResult run_preempt(const Plan& p, const RunOpts& o) {
             sc[rec.op.task].recs.push_back(rec);
         }
     };
-    auto transcript = [&](const TaskScript& s) { std::vector<std::string> v; for (auto& rc : s.recs) v.push_back(rc.str()); return v; };
+    // What a task observes: statuses, outputs, and everything it hands to or receives from the environment that can influence
+    // them. Allocator and wipe calls are left out: which task performs a one-time, correctly synchronised set-up (and so
+    // allocates or wipes something on behalf of all) legitimately depends on the schedule.
+    auto transcript = [&](const TaskScript& s) {
+        std::vector<std::string> v;
+        for (auto& rc : s.recs) {
+            OpRec c = rc;
+            c.ev.erase(std::remove_if(c.ev.begin(), c.ev.end(), [](const SeamEvent& e) { return e.kind == EV_MEMZERO || e.kind == EV_ALLOC || e.kind == EV_FREE || e.kind == EV_LIBC_MALLOC || e.kind == EV_LIBC_FREE; }), c.ev.end());
+            v.push_back(c.str());
+        }
+        return v;
+    };
 
     // ---- concurrent phase
     std::vector<TaskScript> conc; build(conc);
